@@ -165,7 +165,8 @@ def bind(run):
                         "catalog is the price table (prices are multiples of 1/8 $ so that float sums are exact)",
                         "cluster state is hydrated by the real informer controllers before each decision (no informer lag)",
                         "a command is judged at the instant it is issued (after the 15 s validation) against the API store and the "
-                        "price table of that instant; price changes during the validation wait are not generated",
+                        "price table of that instant; price changes during the validation wait appear in four directed scenarios only "
+                        "(known finding F-C06-2)",
                         "reschedulable pods protected by do-not-disrupt / fully blocking PDBs are C07's business (the node is "
                         "ineligible), C01's listed known-finding classes are C01's business",
                         "no DaemonSets, volumes, reserved capacity or topology constraints in these clusters (C01/C02/C17 cover them)"]
